@@ -53,7 +53,8 @@ def main():
         # ---------------- 1. proof obligations
         thms = []
         try:
-            lib.build_coq()
+            if not os.environ.get("VERIF_DEV_NOBUILD"):
+                lib.build_coq()
             thms = lib.property_theorems().get(pid, [])
             asm = lib.assumptions()
             cov["obligations"] = len(thms)
